@@ -13,6 +13,7 @@ theorem next_wiring (s : SlowStochastic F) (x : F) (fs' : FastStochastic F) (k :
     s.next x = some ({ fast_stochastic := fs', ema := ExponentialMovingAverage.step s.ema k },
       (ExponentialMovingAverage.step s.ema k).current) := by
   unfold next
+  try simp only [gen_helper]
   simp [h, ExponentialMovingAverage.next_eq]
 
 /-- bar path: output = EMA step applied to the FastStochastic bar output -/
@@ -21,17 +22,20 @@ theorem nextBar_wiring (s : SlowStochastic F) (b : Bar F) (fs' : FastStochastic 
     s.nextBar b = some ({ fast_stochastic := fs', ema := ExponentialMovingAverage.step s.ema k },
       (ExponentialMovingAverage.step s.ema k).current) := by
   unfold nextBar
+  try simp only [gen_helper]
   simp [h, ExponentialMovingAverage.next_eq]
 
 /-- panic propagation: the EMA never panics, so `next` panics iff the FastStochastic does -/
 theorem next_none_iff (s : SlowStochastic F) (x : F) :
     s.next x = none ↔ s.fast_stochastic.next x = none := by
   unfold next
+  try simp only [gen_helper]
   cases h : s.fast_stochastic.next x <;> simp [ExponentialMovingAverage.next_eq]
 
 theorem nextBar_none_iff (s : SlowStochastic F) (b : Bar F) :
     s.nextBar b = none ↔ s.fast_stochastic.nextBar b = none := by
   unfold nextBar
+  try simp only [gen_helper]
   cases h : s.fast_stochastic.nextBar b <;> simp [ExponentialMovingAverage.next_eq]
 
 /-- SlowStochastic has no `period` field / `period_fn`: "parameters unchanged" = both component periods -/
